@@ -64,6 +64,8 @@ def f_rotate(case):
             obj = Bk.pauli(L[0], K[0])
         elif kind == 'list':
             obj = Bk.plist(L, K)
+        elif kind == 'monomial':
+            obj = Bk.mods()['p'].PauliMonomial(B.np_g(L[0]), int(K[0])).set_c(gen.cplx(case['cs'][0]))
         elif kind == 'poly':
             cs = [gen.cplx(c) for c in case['cs']]
             obj = Bk.poly(L, K, cs)
@@ -74,7 +76,7 @@ def f_rotate(case):
         ret = obj.rotate_by(G, m) if m is not None else obj.rotate_by(G)
         check(ret is obj, 'rotate_by did not return the receiver', 'return')
         el, ek = ref.rotate_rule(L, K, GL, gk)
-        if kind == 'pauli':
+        if kind in ('pauli', 'monomial'):
             l, k = Bk.read_pauli(obj)
             got = (l[None, :], np.array([k]))
             el, ek = el[:1], ek[:1]
@@ -84,10 +86,12 @@ def f_rotate(case):
         if U is not None:
             for j in range(min(len(ek), 3)):
                 check(np.allclose(U.conj().T @ ref.dense(L[j], K[j]) @ U, ref.dense(got[0][j], got[1][j])), 'dense U^dagger P U differs on row %d' % j, 'dense')
+        if kind == 'monomial':
+            check(abs(complex(obj.c) - gen.cplx(case['cs'][0])) < 1e-12 and type(obj).__name__ == 'PauliMonomial', 'monomial coefficient / type changed', 'coef')
         if kind == 'poly':
             cs2 = Bk.num(obj.cs)
             check(np.allclose(cs2, np.array(cs), atol=1e-6), 'polynomial coefficients changed by rotation', 'coef')
-        nt = _nt(case, L if kind != 'pauli' else L[:1], K if kind != 'pauli' else K[:1], GL, gk)
+        nt = _nt(case, L if kind not in ('pauli', 'monomial') else L[:1], K if kind not in ('pauli', 'monomial') else K[:1], GL, gk)
         labels = [kind]
     check(B.snapshot(G) == g_before, 'generator modified by rotate_by', 'generator-modified')
     labels.append('N=%d' % N)
@@ -103,6 +107,8 @@ def st_rotcase(be, hiN, kinds):
         opts = []
         if 'pauli' in kinds:
             opts.append(st.fixed_dictionaries(dict(base, kind=st.just('pauli'), ops=st.lists(gen.st_pauli(N), min_size=1, max_size=1))))
+        if 'monomial' in kinds:
+            opts.append(st.fixed_dictionaries(dict(base, kind=st.just('monomial'), ops=st.lists(gen.st_pauli(N), min_size=1, max_size=1), cs=st.lists(gen.st_coef(), min_size=1, max_size=1))))
         if 'list' in kinds:
             opts.append(st.fixed_dictionaries(dict(base, kind=st.just('list'), ops=st.lists(gen.st_pauli(N), min_size=1, max_size=6))))
         if 'poly' in kinds:
@@ -230,7 +236,7 @@ def st_rotmap(be, hiN):
 
 FACETS = [
     Facet('np/exhaustive-N<=2', f_exhaustive, kind='enum', cases=enum_exh('np'), exhaustive=lambda t: True),
-    Facet('np/rotate-operands', f_rotate, strategy=lambda t: st_rotcase('np', 4 if t == 'quick' else 6, ['pauli', 'list', 'poly', 'map', 'state']),
+    Facet('np/rotate-operands', f_rotate, strategy=lambda t: st_rotcase('np', 4 if t == 'quick' else 6, ['pauli', 'monomial', 'list', 'poly', 'map', 'state']),
           examples={'quick': 3000, 'thorough': 120000}, shards={'quick': 2, 'thorough': 8}),
     Facet('np/sequences', f_sequence, strategy=lambda t: st_seq('np', 5), examples={'quick': 800, 'thorough': 30000}, shards={'quick': 1, 'thorough': 4}),
     Facet('np/rotation-map', f_rotmap, strategy=lambda t: st_rotmap('np', 5), examples={'quick': 800, 'thorough': 30000}, shards={'quick': 1, 'thorough': 4}),
